@@ -6,8 +6,8 @@ Import ListNotations.
 Lemma memb_In i l : memb i l = true <-> In i l.
 Proof.
   unfold memb. rewrite existsb_exists. split.
-  - intros [x [Hin He]]. apply Nat.eqb_eq in He. now subst.
-  - intros Hin. exists i. split; [assumption | apply Nat.eqb_refl].
+  - intros [x [Hin He]]. apply N.eqb_eq in He. now subst.
+  - intros Hin. exists i. split; [assumption | apply N.eqb_refl].
 Qed.
 
 Lemma memb_false i l : memb i l = false <-> ~ In i l.
@@ -16,10 +16,10 @@ Proof.
 Qed.
 
 Lemma upd_same {A} (f : id -> A) i a : upd f i a i = a.
-Proof. unfold upd. now rewrite Nat.eqb_refl. Qed.
+Proof. unfold upd. now rewrite N.eqb_refl. Qed.
 
 Lemma upd_other {A} (f : id -> A) i a j : j <> i -> upd f i a j = f j.
-Proof. intros H. unfold upd. apply Nat.eqb_neq in H. now rewrite H. Qed.
+Proof. intros H. unfold upd. apply N.eqb_neq in H. now rewrite H. Qed.
 
 Lemma owner_is_true t o : owner_is t o = true <-> o = Live t.
 Proof.
@@ -30,25 +30,25 @@ Qed.
 
 Lemma remove1_In i l j : In j (remove1 i l) -> In j l.
 Proof.
-  induction l as [|x r IH]; cbn; [tauto|]. destruct (Nat.eqb i x); cbn; intros H; [now right|].
+  induction l as [|x r IH]; cbn; [tauto|]. destruct (N.eqb i x); cbn; intros H; [now right|].
   destruct H as [H|H]; [now left | right; now apply IH].
 Qed.
 
 Lemma remove1_nodup i l : NoDup l -> NoDup (remove1 i l).
 Proof.
   induction 1 as [|x r Hx Hr IH]; cbn; [constructor|].
-  destruct (Nat.eqb i x); [assumption|]. constructor; [|assumption].
+  destruct (N.eqb i x); [assumption|]. constructor; [|assumption].
   intros H. apply Hx. eapply remove1_In; eauto.
 Qed.
 
 Lemma remove1_spec i l j : NoDup l -> (In j (remove1 i l) <-> In j l /\ j <> i).
 Proof.
   induction 1 as [|x r Hx Hr IH]; cbn; [tauto|].
-  destruct (Nat.eqb i x) eqn:E.
-  - apply Nat.eqb_eq in E. subst x. split.
+  destruct (N.eqb i x) eqn:E.
+  - apply N.eqb_eq in E. subst x. split.
     + intros H. split; [now right|]. intros ->. contradiction.
     + intros [[H|H] Hn]; [congruence | assumption].
-  - apply Nat.eqb_neq in E. cbn. rewrite IH. split.
+  - apply N.eqb_neq in E. cbn. rewrite IH. split.
     + intros [H|[H Hn]]; [subst; split; [now left | congruence] | split; [now right | assumption]].
     + intros [[H|H] Hn]; [now left | right; now split].
 Qed.
@@ -78,7 +78,7 @@ Section P.
   (* The invariant.  [rt] is the tree being released at the moment (None between operations): while its
      release is under way, its not-yet-released objects may still point at objects already Put. *)
   Record Mid (rt : option nat) (s : state) : Prop := {
-    m_fresh : forall i, nxt s <= i -> own s i = Unalloc;
+    m_fresh : forall i, (nxt s <= i)%N -> own s i = Unalloc;
     m_nodup : NoDup (pool s);
     m_pool : forall i, In i (pool s) <-> own s i = Pooled;
     m_clean : forall i, In i (pool s) -> nkids (cont s i) = [];
@@ -130,26 +130,26 @@ Section P.
   Proof.
     intros [H0 H1 H2 H3 H4] Hi Hn. split.
     - constructor; cbn.
-      + intros j Hj. destruct (Nat.eq_dec j i) as [->|Hne].
+      + intros j Hj. destruct (N.eq_dec j i) as [->|Hne].
         * rewrite (H0 i Hj) in Hi. discriminate.
         * rewrite upd_other by assumption. now apply H0.
       + now constructor.
-      + intros j. destruct (Nat.eq_dec j i) as [->|Hne].
+      + intros j. destruct (N.eq_dec j i) as [->|Hne].
         * rewrite upd_same. split; auto.
         * rewrite upd_other by assumption. rewrite <- H2. split; [intros [H|H]; [congruence | assumption] | now right].
-      + intros j Hj. destruct (Nat.eq_dec j i) as [->|Hne].
+      + intros j Hj. destruct (N.eq_dec j i) as [->|Hne].
         * rewrite upd_same. cbn. apply filter_none. intros x. apply Hkeeps.
         * rewrite upd_other by assumption. apply H3. destruct Hj as [Hj|Hj]; [congruence | assumption].
-      + intros j t' f c Hj Hin. destruct (Nat.eq_dec j i) as [->|Hne].
+      + intros j t' f c Hj Hin. destruct (N.eq_dec j i) as [->|Hne].
         * rewrite upd_same in Hj. discriminate.
         * rewrite upd_other in Hj by assumption. rewrite upd_other in Hin by assumption.
-          destruct (Nat.eq_dec c i) as [->|Hc].
+          destruct (N.eq_dec c i) as [->|Hc].
           -- rewrite upd_same. destruct (H4 j t' f i Hj Hin) as [H|[_ H]]; [|congruence].
              right. split; [congruence | reflexivity].
           -- rewrite upd_other by assumption. eapply H4; eauto.
     - split; [reflexivity|]. split.
       + intros j Hj. assert (Hne : j <> i) by congruence. cbn. now rewrite !upd_other by assumption.
-      + intros j Hj. cbn. destruct (Nat.eq_dec j i) as [->|Hne].
+      + intros j Hj. cbn. destruct (N.eq_dec j i) as [->|Hne].
         * right. apply upd_same.
         * left. now rewrite upd_other by assumption.
   Qed.
@@ -282,12 +282,12 @@ Section P.
       constructor; cbn [cont own nxt pool].
       + intros j Hj. rewrite upd_other by lia. apply H0. lia.
       + assumption.
-      + intros j. destruct (Nat.eq_dec j (nxt s)) as [->|Hne].
+      + intros j. destruct (N.eq_dec j (nxt s)) as [->|Hne].
         * rewrite upd_same. split; [|discriminate]. intros Hp. apply H2 in Hp. congruence.
         * now rewrite upd_other by assumption.
       + intros j Hj. assert (Hne : j <> nxt s) by (intros ->; apply H2 in Hj; congruence).
         rewrite upd_other by assumption. now apply H3.
-      + intros j t' f c Hj Hin. destruct (Nat.eq_dec j (nxt s)) as [->|Hne].
+      + intros j t' f c Hj Hin. destruct (N.eq_dec j (nxt s)) as [->|Hne].
         * rewrite upd_same in Hin. destruct Hin.
         * rewrite upd_other in Hj by assumption. rewrite upd_other in Hin by assumption.
           destruct (H4 j t' f c Hj Hin) as [H|[H _]]; [|discriminate].
@@ -299,11 +299,11 @@ Section P.
       + intros j Hj. assert (j <> i) by (intros ->; rewrite (H0 i Hj) in Hp; discriminate).
         rewrite upd_other by assumption. now apply H0.
       + now apply remove1_nodup.
-      + intros j. rewrite (remove1_spec i _ j H1). destruct (Nat.eq_dec j i) as [->|Hne].
+      + intros j. rewrite (remove1_spec i _ j H1). destruct (N.eq_dec j i) as [->|Hne].
         * rewrite upd_same. split; [intros [_ H]; congruence | discriminate].
         * rewrite upd_other by assumption. rewrite H2. tauto.
       + intros j Hj. apply H3. eapply remove1_In; eauto.
-      + intros j t' f c Hj Hin. destruct (Nat.eq_dec j i) as [->|Hne].
+      + intros j t' f c Hj Hin. destruct (N.eq_dec j i) as [->|Hne].
         * rewrite (H3 i Hwf) in Hin. destruct Hin.
         * rewrite upd_other in Hj by assumption.
           destruct (H4 j t' f c Hj Hin) as [H|[H _]]; [|discriminate].
@@ -314,7 +314,7 @@ Section P.
       constructor; cbn [cont own nxt pool]; auto.
       + intros j Hj. assert (j <> i) by (intros ->; apply H2 in Hj; congruence).
         rewrite upd_other by assumption. now apply H3.
-      + intros j t' f c Hj Hin. destruct (Nat.eq_dec j i) as [->|Hne].
+      + intros j t' f c Hj Hin. destruct (N.eq_dec j i) as [->|Hne].
         * rewrite upd_same in Hin. left. specialize (Hk _ Hin). cbn in Hk. apply owner_is_true in Hk. congruence.
         * rewrite upd_other in Hin by assumption. eapply H4; eauto.
     - (* Release *)
@@ -338,11 +338,11 @@ Section P.
       + intros j Hj. assert (j <> i) by (intros ->; rewrite (H0 i Hj) in Hp; discriminate).
         rewrite upd_other by assumption. now apply H0.
       + now apply remove1_nodup.
-      + intros j. rewrite (remove1_spec i _ j H1). destruct (Nat.eq_dec j i) as [->|Hne].
+      + intros j. rewrite (remove1_spec i _ j H1). destruct (N.eq_dec j i) as [->|Hne].
         * rewrite upd_same. split; [intros [_ H]; congruence | discriminate].
         * rewrite upd_other by assumption. rewrite H2. tauto.
       + intros j Hj. apply H3. eapply remove1_In; eauto.
-      + intros j t' f c Hj Hin. destruct (Nat.eq_dec j i) as [->|Hne].
+      + intros j t' f c Hj Hin. destruct (N.eq_dec j i) as [->|Hne].
         * rewrite upd_same in Hj. discriminate.
         * rewrite upd_other in Hj by assumption.
           destruct (H4 j t' f c Hj Hin) as [H|[H _]]; [|discriminate].
@@ -486,7 +486,7 @@ End P.
 
 (* slices and byte buffers: a result none of whose cells is written later reads the same *)
 Lemma wr_other m w a : a <> fst w -> wr m w a = m a.
-Proof. intros H. unfold wr. apply Nat.eqb_neq in H. now rewrite H. Qed.
+Proof. intros H. unfold wr. apply N.eqb_neq in H. now rewrite H. Qed.
 
 Theorem alias_free_stable : forall ws m cells,
   disjointb cells ws = true -> read (wr_all m ws) cells = read m cells.
@@ -502,10 +502,10 @@ Qed.
 Example shared_child_is_put_twice :
   let P := fun _ : N => true in let F := fun _ : N => false in
   let D := fun _ _ : N => true in let K := fun _ _ : N => false in
-  let h := [Alloc 0 1%N; Alloc 0 2%N; Write 0 0 (mkNode 1%N 0%N [(0%N, 1); (1%N, 1)])] in
+  let h := [Alloc 0 1%N; Alloc 0 2%N; Write 0 0%N (mkNode 1%N 0%N [(0%N, 1%N); (1%N, 1%N)])] in
   let s := run P F D K 10 3 init h in
   wf_histb P F D K 10 3 init h = true /\
-  wf_opb P F D K 10 3 s (Release 0 0) = false /\
-  let s' := run P F D K 10 3 s [Release 0 0; Get 1 1] in
-  wf_opb P F D K 10 3 s' (Get 2 1) = true /\ own s' 1 = Live 1.
+  wf_opb P F D K 10 3 s (Release 0 0%N) = false /\
+  let s' := run P F D K 10 3 s [Release 0 0%N; Get 1 1%N] in
+  wf_opb P F D K 10 3 s' (Get 2 1%N) = true /\ own s' 1%N = Live 1.
 Proof. vm_compute. repeat split. Qed.
